@@ -33,6 +33,9 @@ pub(crate) mod verif_environment {
 
     /// which variables are set in the modelled environment (bit i => DOC_NAMES[i])
     pub static mut ENV_MASK: u32 = 0;
+    /// when set, the value of variable OVERRIDE_IDX is this 6-digit decimal text
+    pub static mut OVERRIDE_IDX: usize = 99;
+    pub static mut OVERRIDE_TXT: [u8; 6] = [b'0'; 6];
 
     /// model of std::env::var: a variable is present iff the harness set exactly that name
     pub fn stub_env_var<K: AsRef<std::ffi::OsStr>>(key: K) -> Result<String, std::env::VarError> {
@@ -40,11 +43,18 @@ pub(crate) mod verif_environment {
         let mut i = 0;
         while i < 8 {
             if unsafe { ENV_MASK } & (1 << i) != 0 && k == std::ffi::OsStr::new(DOC_NAMES[i]) {
+                if unsafe { OVERRIDE_IDX } == i {
+                    let t = unsafe { OVERRIDE_TXT };
+                    return Ok(String::from_utf8(t.to_vec()).unwrap());
+                }
                 return Ok(VALUES[i].to_string());
             }
             i += 1;
         }
         Err(std::env::VarError::NotPresent)
+    }
+    pub fn stub_hex_decode(_e: &data_encoding::Encoding, input: &[u8]) -> Result<Vec<u8>, data_encoding::DecodeError> {
+        Ok(vec![0u8; input.len() / 2])
     }
     pub fn stub_available_parallelism() -> std::io::Result<std::num::NonZero<usize>> {
         Ok(std::num::NonZero::new(4).unwrap())
@@ -83,10 +93,94 @@ pub(crate) mod verif_environment {
         core::mem::forget(cfg);
     }
 
+    /// One numeric variable carries an arbitrary value 0..=999999 (six decimal digits, symbolic):
+    /// the loader either refuses it (panics) or the effective setting is exactly that value and
+    /// inside the documented range.
+    pub fn env_range_body(which: usize) {
+        let v = vany_u32();
+        vassume(v < 1_000_000);
+        let mut txt = [b'0'; 6];
+        let mut r = v;
+        let mut i = 6;
+        while i > 0 {
+            i -= 1;
+            txt[i] = b'0' + (r % 10) as u8;
+            r /= 10;
+        }
+        let mask: u32 = 0b111 | (1 << which);
+        #[cfg(kani)]
+        unsafe {
+            ENV_MASK = mask;
+            OVERRIDE_IDX = which;
+            OVERRIDE_TXT = txt;
+        }
+        #[cfg(not(kani))]
+        {
+            for i in 0..8 {
+                if mask & (1 << i) != 0 {
+                    std::env::set_var(DOC_NAMES[i], VALUES[i]);
+                } else {
+                    std::env::remove_var(DOC_NAMES[i]);
+                }
+            }
+            std::env::set_var(DOC_NAMES[which], String::from_utf8(txt.to_vec()).unwrap());
+        }
+        let cfg = EnvironmentConfig::new().unwrap();
+        // the loader accepted the text; start-up goes on only if the configuration validates
+        let accepted = match which {
+            1 => cfg.port() != 0,
+            3 => cfg.batch_size() >= 1 && cfg.batch_size() <= 64,
+            6 => cfg.fault_percentage() <= 50,
+            7 => cfg.num_workers() >= 1,
+            _ => true,
+        };
+        vcover!(accepted, "COVER:env-loaded");
+        if accepted {
+            let effective: u64 = match which {
+                1 => cfg.port() as u64,
+                3 => cfg.batch_size() as u64,
+                4 => cfg.status_interval().as_secs(),
+                5 => cfg.health_check_port().map(|p| p as u64).unwrap_or(u64::MAX),
+                6 => cfg.fault_percentage() as u64,
+                _ => cfg.num_workers() as u64,
+            };
+            vassert!(effective == v as u64, "VERIF:C16:env-effective-setting-equals-the-value-written");
+        }
+        core::mem::forget(cfg);
+    }
+
+    macro_rules! c16_env_range {
+        ($name:ident, $which:expr) => {
+            #[cfg_attr(kani, kani::proof)]
+            #[cfg_attr(kani, kani::unwind(12))]
+            #[cfg_attr(kani, kani::stub(data_encoding::Encoding::decode, crate::config::environment::verif_environment::stub_hex_decode))]
+            #[cfg_attr(kani, kani::stub(std::env::var, crate::config::environment::verif_environment::stub_env_var))]
+            #[cfg_attr(kani, kani::stub(std::thread::available_parallelism, crate::config::environment::verif_environment::stub_available_parallelism))]
+            #[cfg_attr(not(kani), test)]
+            fn $name() {
+                env_range_body($which);
+            }
+        };
+    }
+    //@ family c16_env_range props=C16 mode=panics-ok mod=config::environment::verif_environment must_cover=COVER:env-loaded timeout=900
+    //@ harness c16_env_range_port tier=quick shape="ROUGHENOUGH_PORT = any value 0..=999999 (six symbolic decimal digits)"
+    c16_env_range!(c16_env_range_port, 1);
+    //@ harness c16_env_range_batch_size tier=quick shape="ROUGHENOUGH_BATCH_SIZE = any value 0..=999999"
+    c16_env_range!(c16_env_range_batch_size, 3);
+    //@ harness c16_env_range_fault_percentage tier=quick shape="ROUGHENOUGH_FAULT_PERCENTAGE = any value 0..=999999"
+    c16_env_range!(c16_env_range_fault_percentage, 6);
+    //@ harness c16_env_range_status_interval tier=thorough shape="ROUGHENOUGH_STATUS_INTERVAL = any value 0..=999999"
+    c16_env_range!(c16_env_range_status_interval, 4);
+    //@ harness c16_env_range_health_check_port tier=thorough shape="ROUGHENOUGH_HEALTH_CHECK_PORT = any value 0..=999999"
+    c16_env_range!(c16_env_range_health_check_port, 5);
+    //@ harness c16_env_range_num_workers tier=thorough shape="ROUGHENOUGH_NUM_WORKERS = any value 0..=999999"
+    c16_env_range!(c16_env_range_num_workers, 7);
+
     macro_rules! c16_env {
         ($name:ident, $which:expr) => {
             #[cfg_attr(kani, kani::proof)]
-            #[cfg_attr(kani, kani::unwind(70))]
+            #[cfg_attr(kani, kani::unwind(12))]
+            #[cfg_attr(kani, kani::stub(data_encoding::Encoding::decode, crate::config::environment::verif_environment::stub_hex_decode))]
             #[cfg_attr(kani, kani::stub(std::env::var, crate::config::environment::verif_environment::stub_env_var))]
             #[cfg_attr(kani, kani::stub(std::thread::available_parallelism, crate::config::environment::verif_environment::stub_available_parallelism))]
             #[cfg_attr(not(kani), test)]
